@@ -445,8 +445,8 @@ async def vanished_selection(part, prop, backend):
                     out.append(b'<closed>')
                     break
                 out.append((await a.send(b'a ' + line + b'\r\n'))[-60:])
-            ok = [b'a OK' in out[0] or (b'BYE' in out[0] and not stays)]
-            if b'BYE' not in out[0]:
+            ok = [b'a OK' in out[0] or (b'BYE' in out[0] and b'SERVERBUG' not in out[0] and not stays)]       # a BYE that says the mailbox is gone, not an internal error
+            if b'BYE' not in out[0] or b'SERVERBUG' in out[0]:
                 ok += [len(out) > 1 and out[1].startswith(b'a BAD'), len(out) > 2 and b'a OK' in out[2], len(out) > 3 and b'a OK' in out[3]]
             if not all(ok):
                 part.violation('monitor', f'{prop}: {backend}: after `{how.decode()}` by another connection, CLOSE / CLOSE / NOOP / SELECT INBOX on the connection that had the mailbox '
